@@ -19,3 +19,18 @@ Theorem C10_truncate_exact : forall es n,
     (map canon (firstn (whole_within es n) es), trunc_status es n).
 Proof. exact WalCodecProofs.C10_truncate_exact. Qed.
 Print Assumptions C10_truncate_exact.
+
+(* the instrumented reader used by crc_accepted_over reads exactly what replay_file reads *)
+Theorem C10_instrumented_faithful : forall bs, fst (replay_file_i bs) = replay_file bs.
+Proof. exact replay_file_i_fst. Qed.
+Print Assumptions C10_instrumented_faithful.
+
+Theorem C10_corrupt : forall es i b,
+  forallb wf_entry es = true ->
+  (i < length (encode_log es))%nat -> b <> nth i (encode_log es) 0 ->
+  let L' := set_nth i b (encode_log es) in
+  let out := fst (replay_file L') in
+  is_prefix (map canon (firstn (whole_within es i) es)) out /\
+  (is_prefix out (map canon es) \/ crc_accepted_over L' i).
+Proof. exact WalCodecProofs.C10_corrupt. Qed.
+Print Assumptions C10_corrupt.
